@@ -18,8 +18,9 @@ FILES = ["src/stereomolgraph/coords.py", "src/stereomolgraph/xyz2graph.py", "src
 FUNCTIONS = ["Geometry.xyz_str", "Geometry.from_xyz", "Geometry._from_xyz_stream", "pairwise_distances", "BondsFromDistance.array",
              "_DefaultFuncDict.array", "default_connectivity_cutoff", "connectivity_from_geometry", "MolGraph.from_atom_types_and_bond_order_matrix"]
 CORNERS = [0.0, -0.0, 1e-8, -1e-8, 0.5e-8, -0.5e-8, 1.0, -1.0, 123456.789, -123456.789, 1e6, -1e6, 0.123456785, 2.5e-9]
-COMMENTS = [None, "", "   ", "12345", "# comment", "H 0.0 0.0 0.0", "énergie = -1.5 Eₕ", "a\tb  c"]
-BOUNDS = {"quick": "text: n in 1..3 atoms, element of atom 0 from 14 spread over the table (others from 6), 14 corner coordinate values on selected positions, 8 comments; "
+COMMENTS = [None, "", "   ", "12345", "# comment", "H 0.0 0.0 0.0", "énergie = -1.5 Eₕ", "a\tb  c",
+            "title\u2028H 9.0 9.0 9.0", "form\x0cfeed", "unit\x1fsep \x1c \x85 next", "vt\x0bx"]
+BOUNDS = {"quick": "text: n in 1..3 atoms, element of atom 0 from 14 spread over the table (others from 6), 14 corner coordinate values on selected positions, 12 comments (incl. U+2028, FF, VT, unit/file separators, NEL inside the comment line); "
                    "kernel: <= 3 atoms, all real coordinates, element pairs from 6 elements",
           "thorough": "text: all 118 elements for atom 0; kernel: <= 4 atoms, element pairs from 12 elements"}
 OUTSIDE = ("the text round trip for every float (format(x,'.8f') and numpy.loadtxt are C code; a finite corner set is exercised); comments containing a newline; "
@@ -108,12 +109,36 @@ def graph_body(n, e0, e1, e2, e3, d01, d02, d03, d12, d13, d23, cls):
     return None
 
 
+def near_cutoff(e0, e1, delta, tmag, axis, direction):
+    """two atoms at distance cutoff +- delta, the pair translated by up to 1e6 along an axis: the connectivity is that of the untranslated pair
+    (the pair is 1e-4 .. 1e-2 A away from the threshold, i.e. many orders of magnitude above the resolution of float64 at 1e6)"""
+    from stereomolgraph.coords import BondsFromDistance
+    from stereomolgraph.periodic_table import COVALENT_RADII
+    small = [1, 6, 8, 17, 35, 78]
+    els = [small[e0], small[e1]]
+    cut = 1.2 * (COVALENT_RADII[els[0]] + COVALENT_RADII[els[1]])
+    d = cut + [-1e-2, -1e-3, -1e-4, 1e-4, 1e-3, 1e-2][delta]
+    dirs = [np.array([1.0, 0, 0]), np.array([0, 1.0, 0]), np.array([0.6, 0.8, 0.0]), np.array([1.0, 2.0, 2.0]) / 3.0]
+    base = np.array([[0.0, 0.0, 0.0], list(dirs[direction] * d)])
+    shift = np.zeros(3)
+    shift[axis] = [0.0, 1e3, 1e5, 1e6, -1e6][tmag]
+    exp = 1 if d < cut else 0
+    for pts in (base, base + shift, base[::-1] + shift):
+        m = BondsFromDistance().array(pts, els)
+        if int(m[0, 1]) != exp or int(m[1, 0]) != exp or m[0, 0] or m[1, 1]:
+            return f"pair {els} at distance cutoff{d - cut:+.0e} translated by {shift.tolist()}: connectivity {m.tolist()}, expected bond={exp}"
+    return None
+
+
 def plan(tier, seed):
     units = []
+    units.append(Sel(name="near_cutoff_translated", func="vp.props.C20:near_cutoff",
+                     params={"e0": (0, 6), "e1": (0, 6), "delta": (0, 6), "tmag": (0, 5), "axis": (0, 3), "direction": (0, 4)},
+                     pre=["e0 <= e1"] + (["e0 in (0, 1, 5)", "direction in (0, 3)"] if tier == "quick" else []), shard_by=[], timeout=1200, nontrivial="tmag > 0"))
     if tier == "quick":
         params = {"n": (1, 4), "e0": (0, len(E0_QUICK)), "e1": (0, 2), "e2": (0, 2), "c0": (0, len(CORNERS)), "c1": (0, 3), "c2": (0, 3),
                   "com": (0, len(COMMENTS)), "which": (0, 3)}
-        pre = ["n > 1 or e1 == 0", "n > 2 or e2 == 0", "com % 4 == 0 or c0 == 8", "e0 < 1 or (c1 == 0 and c2 == 0 and which == 0)", "c1 == 0 or c2 == 0 or which == 0"]
+        pre = ["n > 1 or e1 == 0", "n > 2 or e2 == 0", "com % 4 == 0 or c0 == 8 or (com > 7 and c0 == 1)", "e0 < 1 or (c1 == 0 and c2 == 0 and which == 0)", "c1 == 0 or c2 == 0 or which == 0"]
         units.append(Sel(name="xyz_text", func="vp.props.C20:text_body", params=params, pre=pre, shard_by=["n"], timeout=1500, nontrivial="c0 > 1"))
     else:
         params = {"n": (1, 4), "e0": (0, len(E0_QUICK)), "e1": (0, 4), "e2": (0, 3), "c0": (0, len(CORNERS)), "c1": (0, 4), "c2": (0, 4),
